@@ -1,0 +1,49 @@
+//go:build verif
+
+// Machine-checked contracts for package strategy/momentum (read by /verif/govc; comment-only).
+// C05: one action per snapshot, Hold through the warm-up w of each strategy (w is written out per strategy).
+
+package momentum
+
+//@ func AwesomeOscillatorStrategy.Compute
+//@ requires a.AwesomeOscillator.ShortSma.Period >= 1 && a.AwesomeOscillator.ShortSma.Period <= a.AwesomeOscillator.LongSma.Period && consumed(snapshots) == 0
+//@ ensures[C05] "len" len(snapshots) >= (a.AwesomeOscillator.IdlePeriod()) ==> len(result) == len(snapshots)
+//@ ensures[C05] "len-short" len(result) >= len(snapshots)
+//@ ensures[C05] "warmup-hold" forall kk :: 0 <= kk && kk < min((a.AwesomeOscillator.IdlePeriod()), len(result)) ==> result[kk] == 0
+//@ ensures[C05] "short-hold" len(snapshots) < (a.AwesomeOscillator.IdlePeriod()) ==> (forall kk :: 0 <= kk && kk < len(result) ==> result[kk] == 0)
+//@ ensures[C05] "range" forall kk :: 0 <= kk && kk < len(result) ==> 0 - 1 <= result[kk] && result[kk] <= 1
+//@ ensures[C03] consumed(snapshots) == len(snapshots) && closed(result)
+//@ ensures[C04] forall kk :: 0 <= kk && kk < len(result) ==> hor(result, kk) <= hor(snapshots, kk)
+
+//@ func RsiStrategy.Compute
+//@ requires r.Rsi.Rma.Period >= 1 && consumed(snapshots) == 0
+//@ ensures[C05] "len" len(snapshots) >= (r.Rsi.IdlePeriod()) ==> len(result) == len(snapshots)
+//@ ensures[C05] "len-short" len(result) >= len(snapshots)
+//@ ensures[C05] "warmup-hold" forall kk :: 0 <= kk && kk < min((r.Rsi.IdlePeriod()), len(result)) ==> result[kk] == 0
+//@ ensures[C05] "short-hold" len(snapshots) < (r.Rsi.IdlePeriod()) ==> (forall kk :: 0 <= kk && kk < len(result) ==> result[kk] == 0)
+//@ ensures[C05] "range" forall kk :: 0 <= kk && kk < len(result) ==> 0 - 1 <= result[kk] && result[kk] <= 1
+//@ ensures[C03] consumed(snapshots) == len(snapshots) && closed(result)
+//@ ensures[C04] forall kk :: 0 <= kk && kk < len(result) ==> hor(result, kk) <= hor(snapshots, kk)
+
+//@ func StochasticRsiStrategy.Compute
+//@ requires s.StochasticRsi.Rsi.Rma.Period >= 1 && s.StochasticRsi.Min.Period >= 1 && s.StochasticRsi.Max.Period == s.StochasticRsi.Min.Period && consumed(snapshots) == 0
+//@ ensures[C05] "len" len(snapshots) >= (s.StochasticRsi.IdlePeriod()) ==> len(result) == len(snapshots)
+//@ ensures[C05] "len-short" len(result) >= len(snapshots)
+//@ ensures[C05] "warmup-hold" forall kk :: 0 <= kk && kk < min((s.StochasticRsi.IdlePeriod()), len(result)) ==> result[kk] == 0
+//@ ensures[C05] "short-hold" len(snapshots) < (s.StochasticRsi.IdlePeriod()) ==> (forall kk :: 0 <= kk && kk < len(result) ==> result[kk] == 0)
+//@ ensures[C05] "range" forall kk :: 0 <= kk && kk < len(result) ==> 0 - 1 <= result[kk] && result[kk] <= 1
+//@ ensures[C03] consumed(snapshots) == len(snapshots) && closed(result)
+//@ ensures[C04] forall kk :: 0 <= kk && kk < len(result) ==> hor(result, kk) <= hor(snapshots, kk)
+
+//@ func TripleRsiStrategy.Compute
+//@ requires t.Rsi.Rma.Period >= 1 && t.Sma.Period >= 1 && t.Sma.IdlePeriod() >= t.Rsi.IdlePeriod() && t.DownDays >= 1 && consumed(snapshots) == 0
+//@ ensures[C05] "len" len(snapshots) >= (t.IdlePeriod()) ==> len(result) == len(snapshots)
+//@ ensures[C05] "len-short" len(result) >= len(snapshots)
+//@ ensures[C05] "warmup-hold" forall kk :: 0 <= kk && kk < min((t.IdlePeriod()), len(result)) ==> result[kk] == 0
+//@ ensures[C05] "short-hold" len(snapshots) < (t.IdlePeriod()) ==> (forall kk :: 0 <= kk && kk < len(result) ==> result[kk] == 0)
+//@ ensures[C05] "range" forall kk :: 0 <= kk && kk < len(result) ==> 0 - 1 <= result[kk] && result[kk] <= 1
+//@ ensures[C03] consumed(snapshots) == len(snapshots) && closed(result)
+//@ ensures[C04] forall kk :: 0 <= kk && kk < len(result) ==> hor(result, kk) <= hor(snapshots, kk)
+//@ lit#0 invariant rwf(memory) && len(memory.buffer) == t.DownDays
+//@ lit#0 ensures 0 - 1 <= ret && ret <= 1
+//@ loop#0 invariant 1 <= i && i <= t.DownDays && rwf(memory) && len(memory.buffer) == t.DownDays
